@@ -3,6 +3,8 @@
   * every mutant in selftest/mutants.py (one small breaking edit that still compiles) must make the named
     check exit 1 and report the named rule;
   * every benign edit in selftest/benign.py (behaviour-preserving) must leave the named checks at exit 0.
+  * every seeded change written by a sub-agent (seeded/<id>/patch.diff) must be reported by the check of its own property
+    (or stay silent when its meta.json says it is benign on the repaired tree).
 usage: selftest.py [--only substr] [--jobs N] [--kind mutants|benign|all]
 Not a MANIFEST command; scratch copies are removed after each case."""
 import argparse, os, shutil, subprocess, sys, tempfile, importlib.util
@@ -19,7 +21,24 @@ def load(name):
     spec.loader.exec_module(mod)
     return mod.CASES
 
+def seeded_cases():
+    """every stored seeded change (seeded/<id>/patch.diff) is a regression case for the check of its own property"""
+    import glob, json
+    out = []
+    for d in sorted(glob.glob(os.path.join(VERIF, "seeded", "*"))):
+        if not os.path.exists(os.path.join(d, "patch.diff")):
+            continue
+        meta = json.load(open(os.path.join(d, "meta.json")))
+        silent = meta.get("expect_on_current_tree") == "silent"
+        out.append((dict(name="seed-" + os.path.basename(d), ids=[meta["property"]], rule=None, subs=[], patch=os.path.join(d, "patch.diff")),
+                    "benign" if silent else "mutants"))
+    return out
+
 def apply(tmp, case):
+    if case.get("patch"):
+        r = subprocess.run(["patch", "-p1", "-s", "-d", tmp, "-i", case["patch"]], capture_output=True, text=True)
+        if r.returncode != 0:
+            return "PATCH FAILED: " + (r.stdout + r.stderr)[-200:]
     for (f, old, new) in case["subs"]:
         p = os.path.join(tmp, "include", "quill", f)
         s = open(p).read()
@@ -67,6 +86,8 @@ def main():
         todo += [(c, "mutants") for c in load("mutants")]
     if a.kind in ("all", "benign"):
         todo += [(c, "benign") for c in load("benign")]
+    if a.kind == "all":
+        todo += seeded_cases()
     todo = [(c, k) for (c, k) in todo if a.only in c["name"] or a.only in ",".join(c["ids"])]
     bad = 0
     with ThreadPoolExecutor(a.jobs) as ex:
